@@ -33,6 +33,8 @@ def gen(rng, quick):
         maps += [le(rng.getrandbits(512), 64), le(a | (a << 256), 64), le(a | (((P - a % P) % P) << 256), 64), le(a, 64), le(a << 256, 64)]
     for b in maps:
         ops.append({"op": "ris.from_uniform_bytes", "in": [b], "out": "R0"})
+    for _ in range(4):
+        ops.append({"op": "rng.ristretto", "in": [le(rng.getrandbits(512), 64)], "out": "R0"})
     for n in (0, 1, 64, 111, 112, 200):
         m = [rng.randrange(256) for _ in range(n)]
         ops.append({"op": "ris.hash_from_bytes", "in": [m], "out": "R0"})
@@ -89,6 +91,10 @@ def gen(rng, quick):
         ops.append({"op": rng.choice(["ris.mul", "ris.mul_rev", "ris.mul_assign"]), "in": ["P", le(s)], "out": "Q"})
         ops.append({"op": "ris.mul_base", "in": [le(s)], "out": "Q"})
         ops.append({"op": "ris.vartime_double_scalar_mul_basepoint", "in": [le(s), "P", le(rng.randrange(L))], "out": "Q"})
+    ops.append({"op": "ris.basepoint", "out": "BP"})
+    for base in ("P", "BP", "O2"):
+        for s in (0, 1, L - 1, rng.randrange(L)):
+            ops.append({"op": "ris.table", "in": [base, le(s)], "out": "Q", "needs_tables": True})
     for n in (0, 1, 2, 3, 5):
         names = []
         for i in range(n):
